@@ -454,63 +454,19 @@ theorem nodeAt_setTree {f : Forest} {t : Nat} {root r' : Entry} (h : f.tree? t =
     nodeAt (f.setTree t r') (t, p) = r'.getAt p := by
   simp [nodeAt, tree?_setTree h]
 
-/-! ### `find`, unfolded -/
-
-/-- Relative path: the walk starts at the start node. -/
-theorem find_rel_eq (reg : Registry) (f : Forest) (start : Loc) (ctx : Nat) (name : String)
-    (first : String) (rest : List String) (root : Entry)
-    (h0 : name ≠ "") (hs : name.splitOn "/" = first :: rest) (hf : first ≠ "")
-    (ht : f.tree? start.1 = some root) :
-    find reg f start ctx name =
-      ((walkParts (first :: rest) root (some start.2)).1.map (start.1, ·),
-       f.setTree start.1 (walkParts (first :: rest) root (some start.2)).2) := by
-  unfold find
-  simp only [beq_iff_eq, h0, if_false, hs]
-  split
-  · next heq => simp only [List.cons.injEq] at heq; exact absurd heq.1 hf
-  · simp [ht]
-
-/-- Absolute path: the walk starts at the root of the tree the first step selects. -/
-theorem find_abs_eq (reg : Registry) (f : Forest) (start : Loc) (ctx : Nat) (name : String)
-    (parts : List String) (t : Nat) (root : Entry)
-    (h0 : name ≠ "") (hs : name.splitOn "/" = "" :: parts)
-    (hsel : (if (splitPrefix (parts.headD "")).1 == "" then some start.1
-             else prefixTree reg ctx (splitPrefix (parts.headD "")).1) = some t)
-    (ht : f.tree? t = some root) :
-    find reg f start ctx name =
-      ((walkParts parts root (some [])).1.map (t, ·), f.setTree t (walkParts parts root (some [])).2) := by
-  unfold find
-  simp only [beq_iff_eq, h0, if_false, hs]
-  generalize (splitPrefix (parts.headD "")).1 = pfx at hsel ⊢
-  by_cases hp : pfx = ""
-  · simp only [hp, beq_self_eq_true, if_true, Option.some.injEq] at hsel ⊢
-    subst hsel
-    simp [ht]
-  · simp only [hp, beq_iff_eq, if_false] at hsel ⊢
-    unfold prefixTree at hsel
-    cases hb : reg.byId ctx with
-    | none => simp [hb] at hsel
-    | some cm =>
-      simp only [hb, Option.bind_some] at hsel ⊢
-      cases hm : reg.findModuleByPrefix cm pfx with
-      | none => simp [hm] at hsel
-      | some m =>
-        simp only [hm, Option.bind_some] at hsel ⊢
-        simp [hsel, ht]
-
 /-! ### `find` on the split parts -/
 
 /-- Where the step loop starts and with which parts: tree, location in it, remaining parts. -/
 def startOf (reg : Registry) (start : Loc) (ctx : Nat) : List String → Option (Nat × Path × List String)
   | "" :: parts =>
-    (if (splitPrefix (parts.headD "")).1 == "" then some start.1
+    (if (splitPrefix (parts.headD "")).1 == "" then some (homeTree reg start.1)
      else prefixTree reg ctx (splitPrefix (parts.headD "")).1).map fun t => (t, [], parts)
   | parts => some (start.1, start.2, parts)
 
 /-- `find` after the split at `/`. -/
 def findParts (reg : Registry) (f : Forest) (start : Loc) (ctx : Nat) (parts : List String) : Option Loc × Forest :=
   match startOf reg start ctx parts with
-  | none => (none, f)
+  | none => (none, withPrefixError f start.1)
   | some (t, cur, parts) =>
     match f.tree? t with
     | none => (none, f)
@@ -519,7 +475,7 @@ def findParts (reg : Registry) (f : Forest) (start : Loc) (ctx : Nat) (parts : L
 
 theorem startOf_abs (reg : Registry) (start : Loc) (ctx : Nat) (parts : List String) :
     startOf reg start ctx ("" :: parts) =
-      (if (splitPrefix (parts.headD "")).1 == "" then some start.1
+      (if (splitPrefix (parts.headD "")).1 == "" then some (homeTree reg start.1)
        else prefixTree reg ctx (splitPrefix (parts.headD "")).1).map fun t => (t, [], parts) := rfl
 
 theorem startOf_rel (reg : Registry) (start : Loc) (ctx : Nat) (ps : List String)
@@ -529,6 +485,7 @@ theorem startOf_rel (reg : Registry) (start : Loc) (ctx : Nat) (ps : List String
   · next parts => exact absurd rfl (hne parts)
   · rfl
 
+/-- The one place that looks inside `find`. -/
 theorem find_eq_findParts (reg : Registry) (f : Forest) (start : Loc) (ctx : Nat) (name : String) (h0 : name ≠ "") :
     find reg f start ctx name = findParts reg f start ctx (name.splitOn "/") := by
   unfold find findParts
@@ -539,26 +496,64 @@ theorem find_eq_findParts (reg : Registry) (f : Forest) (start : Loc) (ctx : Nat
     rw [startOf_abs]
     generalize (splitPrefix (parts.headD "")).1 = pfx
     by_cases hp : pfx = ""
-    · simp only [hp, beq_self_eq_true, if_true, Option.map_some]
-      cases h : f.tree? start.1 <;> simp [h]
-    · simp only [hp, beq_iff_eq, if_false]
-      unfold prefixTree
+    · simp only [hp, if_true, beq_self_eq_true, Option.map_some]
+      unfold homeTree
+      cases hb : reg.byId start.1 with
+      | none => simp only; cases h : f.tree? start.1 <;> simp [h]
+      | some sm =>
+        simp only
+        cases hsub : sm.isSub with
+        | false => simp only [Bool.false_eq_true, if_false]; cases h : f.tree? start.1 <;> simp [h]
+        | true =>
+          simp only [if_true]
+          cases reg.owner sm with
+          | none => simp only [Option.map_none, Option.getD_none]; cases h : f.tree? start.1 <;> simp [h]
+          | some o => simp only [Option.map_some, Option.getD_some]; cases h : f.tree? o.seq <;> simp [h]
+    · simp only [hp, if_false, beq_iff_eq]
+      unfold prefixTree withPrefixError
       cases hb : reg.byId ctx with
-      | none => rfl
+      | none => simp only [Option.bind_none, Option.map_none]
       | some cm =>
         simp only [Option.bind_some]
         cases hm : reg.findModuleByPrefix cm pfx with
-        | none => rfl
+        | none => simp only [Option.bind_none, Option.map_none]
         | some m =>
           simp only [Option.bind_some]
           cases reg.owner m with
-          | none => rfl
+          | none => simp only [Option.map_none]
           | some o =>
             simp only [Option.map_some]
             cases h : f.tree? o.seq <;> simp [h]
   · next parts hne =>
     rw [startOf_rel _ _ _ _ (fun parts h => hne parts h)]
     cases h : f.tree? start.1 <;> simp [h]
+
+/-- Relative path: the walk starts at the start node. -/
+theorem find_rel_eq (reg : Registry) (f : Forest) (start : Loc) (ctx : Nat) (name : String)
+    (first : String) (rest : List String) (root : Entry)
+    (h0 : name ≠ "") (hs : name.splitOn "/" = first :: rest) (hf : first ≠ "")
+    (ht : f.tree? start.1 = some root) :
+    find reg f start ctx name =
+      ((walkParts (first :: rest) root (some start.2)).1.map (start.1, ·),
+       f.setTree start.1 (walkParts (first :: rest) root (some start.2)).2) := by
+  rw [find_eq_findParts _ _ _ _ _ h0, hs]
+  unfold findParts
+  rw [startOf_rel _ _ _ _ (by intro parts h; simp only [List.cons.injEq] at h; exact hf h.1)]
+  simp [ht]
+
+/-- Absolute path: the walk starts at the root of the tree the first step selects. -/
+theorem find_abs_eq (reg : Registry) (f : Forest) (start : Loc) (ctx : Nat) (name : String)
+    (parts : List String) (t : Nat) (root : Entry)
+    (h0 : name ≠ "") (hs : name.splitOn "/" = "" :: parts)
+    (hsel : (if (splitPrefix (parts.headD "")).1 == "" then some (homeTree reg start.1)
+             else prefixTree reg ctx (splitPrefix (parts.headD "")).1) = some t)
+    (ht : f.tree? t = some root) :
+    find reg f start ctx name =
+      ((walkParts parts root (some [])).1.map (t, ·), f.setTree t (walkParts parts root (some [])).2) := by
+  rw [find_eq_findParts _ _ _ _ _ h0, hs]
+  unfold findParts
+  rw [startOf_abs, hsel]
+  simp [ht]
 
 /-! ### the only change: absent rpc inputs / outputs are created -/
 
@@ -793,7 +788,7 @@ theorem abs_roundtrip (reg : Registry) (f : Forest) (start : Loc) (ctx t : Nat) 
   have hs := absSpelling_spells hsp
   have hslash := spells_noSlash hs hroot hx
   have hne : parts ≠ [] := by cases hsp <;> simp
-  have hsel : (if (splitPrefix (parts.headD "")).1 == "" then some start.1
+  have hsel : (if (splitPrefix (parts.headD "")).1 == "" then some (homeTree reg start.1)
       else prefixTree reg ctx (splitPrefix (parts.headD "")).1) = some t := by
     cases hsp with
     | own s rest q ht' _ =>
@@ -1025,7 +1020,8 @@ theorem absent_first_rel (reg : Registry) (f : Forest) (start : Loc) (ctx : Nat)
 theorem absent_first_abs (reg : Registry) (f : Forest) (start : Loc) (ctx : Nat)
     (bad : String) (post : List String) (t : Nat) (root : Entry)
     (hslash : ∀ s ∈ bad :: post, '/' ∉ s.toList)
-    (hsel : (if (splitPrefix bad).1 == "" then some start.1 else prefixTree reg ctx (splitPrefix bad).1) = some t)
+    (hsel : (if (splitPrefix bad).1 == "" then some (homeTree reg start.1)
+             else prefixTree reg ctx (splitPrefix bad).1) = some t)
     (ht : f.tree? t = some root) (hbad : NamesNoChild root bad) :
     (find reg f start ctx (renderAbs (bad :: post))).1 = none := by
   rw [find_abs_eq reg f start ctx _ (bad :: post) t root (renderAbs_ne _ (by simp) hslash)
